@@ -6,6 +6,7 @@
 //!   collect_val <Type> a [b] ...   push <Type> collected from an iterator of values (pairs for pair estimators)
 //!   collect_ref <Type> a [b] ...   same from an iterator of references
 //!   extend_val a [b] ... / extend_ref a [b] ...   extend the top of the stack
+//!   const_width L a b     print parts=[L, a, b, edges of a LEN-L histogram built by with_const_width(a, b)] (L in 1,2,3,4,5,10,20,100)
 //!   dump                  print `parts=...` and every accessor of the top as name=hexbits
 use average::{Covariance, Estimate, Kurtosis, Mean, Merge, Quantile, Skewness, Variance, WeightedMean, WeightedMeanWithError};
 use avk::types::{M10, M4, M5, M6, M8};
@@ -213,6 +214,32 @@ fn collect(ty: &str, it: &[(f64, f64)], by_ref: bool) -> Box<dyn Est> {
     }
 }
 
+mod hl {
+    use average::define_histogram;
+    define_histogram!(h20, 20);
+    define_histogram!(h100, 100);
+    pub type H20 = h20::Histogram;
+    pub type H100 = h100::Histogram;
+}
+
+fn const_width(l: usize, a: f64, bb: f64) -> Vec<u64> {
+    use avk::hists::*;
+    let edges: Vec<f64> = match l {
+        1 => H1::with_const_width(a, bb).ranges().to_vec(),
+        2 => H2::with_const_width(a, bb).ranges().to_vec(),
+        3 => H3::with_const_width(a, bb).ranges().to_vec(),
+        4 => H4::with_const_width(a, bb).ranges().to_vec(),
+        5 => H5::with_const_width(a, bb).ranges().to_vec(),
+        10 => H10::with_const_width(a, bb).ranges().to_vec(),
+        20 => hl::H20::with_const_width(a, bb).ranges().to_vec(),
+        100 => hl::H100::with_const_width(a, bb).ranges().to_vec(),
+        _ => panic!("const_width: unsupported LEN {}", l),
+    };
+    let mut v = vec![l as u64, b(a), b(bb)];
+    v.extend(edges.iter().map(|x| b(*x)));
+    v
+}
+
 fn hex(s: &str) -> u64 { u64::from_str_radix(s.trim_start_matches("0x"), 16).expect("hex word") }
 
 pub fn run(path: &str) {
@@ -229,6 +256,12 @@ pub fn run(path: &str) {
                 let a = f(hex(t[1]));
                 let bb = t.get(2).map(|s| f(hex(s))).unwrap_or(0.0);
                 stack.last_mut().expect("stack").add2(a, bb);
+            }
+            "const_width" => {
+                let l: usize = t[1].parse().expect("LEN");
+                let p: Vec<String> = const_width(l, f(hex(t[2])), f(hex(t[3]))).iter().map(|w| format!("{:016x}", w)).collect();
+                println!("parts={}", p.join(","));
+                println!("end");
             }
             "collect_val" | "collect_ref" => {
                 let it = items(&t[2..], is_pair(t[1]));
